@@ -223,6 +223,43 @@ func c13(c *core.Ctx) {
 			ok = a && b
 		}
 		rN.Check(ok, f.Key+":float-branch", f.Decl.Pos(), "ordered comparison only when neither operand is NaN", "floats are compared with < and > only: with a NaN operand both are false and the values are reported equal")
+		// no comparison result is produced before the numeric class of both operands is known:
+		// every success return (nil error) is dominated by the successful decoding of both operands
+		{
+			var decoders []*ast.CallExpr
+			core.Calls(f.Decl.Body, false, func(call *ast.CallExpr) {
+				if t := p.ByObj[core.Callee(info, call)]; t != nil {
+					sig := t.Obj.Type().(*types.Signature)
+					// the numeric leaf reader: returns (.., float64, class, error)
+					hasFloat := false
+					for i := 0; i < sig.Results().Len(); i++ {
+						if sig.Results().At(i).Type().String() == "float64" {
+							hasFloat = true
+						}
+					}
+					if hasFloat && sig.Results().Len() >= 3 {
+						decoders = append(decoders, call)
+					}
+				}
+			})
+			early := ""
+			if len(decoders) >= 2 {
+				fl.Nodes(func(l core.Loc, n ast.Node) {
+					ret, isRet := n.(*ast.ReturnStmt)
+					if !isRet || len(ret.Results) != 2 || !core.IsNilIdent(info, ret.Results[1]) {
+						return
+					}
+					for _, d := range decoders {
+						if good, _ := fl.OnlyAfterSuccess(f.Decl.Body, d, ret); !good {
+							early = p.Pos(ret.Pos())
+						}
+					}
+				})
+			} else {
+				early = "(numeric decoding of the operands not found)"
+			}
+			rN.Check(early == "", f.Key+":result-after-classification", f.Decl.Pos(), "every result is produced after both operands were classified", "a comparison result is returned at "+early+" before both operands were decoded and classified: two bit-identical NaN floats are reported equal, so EQUAL / >= / <= conditions on a NaN field are met and the ops are applied")
+		}
 		ev := c.Fn(pkgPatch + ".evaluateCondition")
 		einfo := ev.Info()
 		// the local that holds errors.Is(err, <unordered sentinel>)
